@@ -33,6 +33,7 @@ type Machine struct {
 	Paths       []*Path
 	Unsupported []string
 	Pos         token.Pos
+	ReadExprs   map[string]ast.Expr // first occurrence of every captured variable / selector read
 }
 
 type state struct {
@@ -97,7 +98,7 @@ func FromStmts(info *types.Info, stmts []ast.Stmt, inputs []types.Object) *Machi
 }
 
 func newBuilder(info *types.Info, lo, hi token.Pos) *builder {
-	return &builder{info: info, m: &Machine{Pos: lo}, lo: lo, hi: hi, params: map[types.Object]bool{}, state: map[string]bool{}, reads: map[string]bool{}, names: map[types.Object]string{}}
+	return &builder{info: info, m: &Machine{Pos: lo, ReadExprs: map[string]ast.Expr{}}, lo: lo, hi: hi, params: map[types.Object]bool{}, state: map[string]bool{}, reads: map[string]bool{}, names: map[types.Object]string{}}
 }
 
 func (b *builder) finish() *Machine {
@@ -391,6 +392,9 @@ func (b *builder) expr(e ast.Expr, st *state) sym.Expr {
 			}
 			if b.captured(obj) {
 				b.reads[x.Name] = true
+				if _, ok := b.m.ReadExprs[x.Name]; !ok {
+					b.m.ReadExprs[x.Name] = x
+				}
 			}
 		}
 		if x.Name == "true" || x.Name == "false" {
@@ -410,6 +414,9 @@ func (b *builder) expr(e ast.Expr, st *state) sym.Expr {
 		}
 		name := types.ExprString(x)
 		b.reads[name] = true
+		if _, ok := b.m.ReadExprs[name]; !ok {
+			b.m.ReadExprs[name] = x
+		}
 		return sym.V(name)
 	case *ast.UnaryExpr:
 		switch x.Op {
